@@ -82,6 +82,11 @@ CHECKS = {
     technique="the scheme returned by the real optimize_contractions / unoptimized_contraction is interpreted step by step by the harness and its result compared with the term's value by z3 (symbolic tensor entries, all target assignments); use-once, sum-once, limits, reported scaling and the scaling bound are direct checks; CrossHair on _split_contracted_and_target and _group_objects with symbolic index layouts",
     text="Generated terms with 2-4 tensors (deltas, symbols, exponents, traces, outer products, hyper-contractions), random requested target order, seven limit settings.",
     note="Models <=2o2v. An intermediate that already carries exactly the indices of the final result is exempt from max_itmd_dim (as the code documents). CrossHair: 3 objects x 2 indices over 3 ids (thorough 4)."),
+ "C17": dict(
+    level=TV, design="2/C17", engine="tvsmt",
+    technique="the text emitted by the real generate_code (einsum and libtensor) is parsed and evaluated by an independent interpreter that returns polynomials in symbolic tensor entries (nested contractions, block names checked against index letters, prefactors, permutation operators applied to the target assignment); z3 decides equality with the expression's value for all entries and all target assignments in the requested order",
+    text="Generated expressions (single tensors, traces, outer products, nested contractions, symmetry partners) x 11 target-string shapes in random requested order x bra-ket 0/+1/-1 x (anti)symmetric result x both back ends x optimised/unoptimised x limits.",
+    note="Models <=2o2v; inputs with non-unique index names or ambiguous printed block names are skipped and counted; documented NotImplementedError refusals give no verdict (in this sympy version every sqrt prefactor is refused: the branch compares the exponent with the float 0.5)."),
 }
 NA_REASON = "check not built yet in this round (planned, see DESIGN.md section 2)"
 
